@@ -13,6 +13,22 @@ CHECKS = {
    text="Generated rows / start offsets / counter lengths against a run-length model, and the pattern-match score against the stated formula evaluated in exact rational arithmetic for every row of every library pattern table with all small counter vectors (exhaustive in the thorough tier) plus rapid-generated larger ones; +Inf classes and scale invariance included.",
    note="Trusted: the run-length model and the big.Rat formula in checks/c20; tables come from the verif-tagged hooks. Cases within 1e-9 of the individual-variance boundary are skipped.",
    tech="property-based testing against a reference model / exact-rational formula; small domains enumerated"),
+ "C01": dict(cat="exploration", ref="DESIGN.md §4 C01",
+   text="Round-trip property testing: all 1280 (version, level, mask) configurations with boundary payloads (capacity, capacity-1 from the independent formula) over all content classes, plus rapid-generated (content class, hints, margin, requested size, matrix path / rendered-image pure-barcode path). The configuration space is enumerated, payloads sampled; a round trip over sampled payloads is the appropriate level for a forall-text property.",
+   note="Trusted: capacity/fit formulae in internal/qrref (validated against the published 7089/4296/2953/1817 figures), x/text as the oracle for which text a charset can represent. Round trips cannot see errors shared by writer and reader; C07 covers those.",
+   tech="round-trip property-based testing (rapid) + exhaustive configuration grid"),
+ "C04": dict(cat="exploration", ref="DESIGN.md §4 C04",
+   text="All element pairs of all six fields are compared with shift-and-xor polynomial arithmetic (exhaustive); RS encode/decode is tested with rapid over (field, k, r, data, error set, magnitudes) with an independent syndrome computation and LFSR encoder; short codes are enumerated over all single/double error positions.",
+   note="Trusted: internal/gfref (table-free GF arithmetic, ~100 lines). Nothing asserted beyond floor(r/2) errors.",
+   tech="exhaustive enumeration (GF) + property-based testing with an independent reference (RS)"),
+ "C07": dict(cat="exploration", ref="DESIGN.md §4 C07",
+   text="Differential testing against an independent QR encoder written from ISO 18004 (internal/qrref): all 1280 configurations x payloads module by module, arbitrary codeword streams through buildMatrix, all decoder tables (totals, 160 block structures, alignment centres, format/version words, mask predicates). Configurations and tables enumerated completely; payloads sampled.",
+   note="Trusted: internal/qrref (320 table numbers typed from ISO 18004 table 9, everything else derived by formula; its capacities reproduce the published figures). Only forced-mask symbols are compared.",
+   tech="differential testing against an independent reference encoder; exhaustive over configurations and tables"),
+ "C08": dict(cat="exploration", ref="DESIGN.md §4 C08",
+   text="Differential testing against an independent ECC 200 construction (internal/dmref): all 30 sizes x codeword vectors (ECC interleave, Annex F placement), full writer output vs reference symbol, factor tables vs prod(x-2^i), randomisers for positions 1..1558, encoder/decoder size tables vs the standard's attribute table. Sizes, tables and formulae enumerated completely; vectors and texts sampled.",
+   note="Trusted: internal/dmref (attribute table typed from ISO 16022 table 7 with the cells/8 identity as self-check, Annex F placement re-implemented). 144x144 parity order as read by the library's decoder and de-facto implementations.",
+   tech="differential testing against an independent reference construction; exhaustive over sizes and tables"),
 }
 
 NOT_YET = {}
